@@ -20,8 +20,17 @@ fn scratch_root() -> PathBuf {
     PathBuf::from(base)
 }
 
+thread_local! {
+    // one parent directory per thread: creating/removing entries in a shared parent serialises on its lock
+    static PARENT: PathBuf = {
+        let p = scratch_root().join(format!("c20-{}-t{}", std::process::id(), DIRSEQ.fetch_add(1, Ordering::SeqCst)));
+        let _ = std::fs::create_dir_all(&p);
+        p
+    };
+}
+
 fn new_dir() -> PathBuf {
-    let d = scratch_root().join(format!("c20-{}-{}", std::process::id(), DIRSEQ.fetch_add(1, Ordering::SeqCst)));
+    let d = PARENT.with(|p| p.join(format!("s{}", DIRSEQ.fetch_add(1, Ordering::SeqCst))));
     let _ = std::fs::remove_dir_all(&d);
     std::fs::create_dir_all(&d).expect("scratch dir");
     d
